@@ -44,41 +44,57 @@ func H_int_to_sized() {
 		v, err := utils.ConvertFromIndex[int8](ctx, 0)
 		if x >= -128 && x <= 127 {
 			symx.Assert(err == nil && int(v) == x, "int->int8 representable exact")
+		} else {
+			symx.Assert(err != nil, "int->int8: a value outside the range is an error, not a wrapped value")
 		}
 	case 1:
 		v, err := utils.ConvertFromIndex[int16](ctx, 0)
 		if x >= -32768 && x <= 32767 {
 			symx.Assert(err == nil && int(v) == x, "int->int16 representable exact")
+		} else {
+			symx.Assert(err != nil, "int->int16: a value outside the range is an error, not a wrapped value")
 		}
 	case 2:
 		v, err := utils.ConvertFromIndex[int32](ctx, 0)
 		if x >= -2147483648 && x <= 2147483647 {
 			symx.Assert(err == nil && int(v) == x, "int->int32 representable exact")
+		} else {
+			symx.Assert(err != nil, "int->int32: a value outside the range is an error, not a wrapped value")
 		}
 	case 3:
 		v, err := utils.ConvertFromIndex[uint8](ctx, 0)
 		if x >= 0 && x <= 255 {
 			symx.Assert(err == nil && int(v) == x, "int->uint8 representable exact")
+		} else {
+			symx.Assert(err != nil, "int->uint8: a value outside the range is an error, not a wrapped value")
 		}
 	case 4:
 		v, err := utils.ConvertFromIndex[uint16](ctx, 0)
 		if x >= 0 && x <= 65535 {
 			symx.Assert(err == nil && int(v) == x, "int->uint16 representable exact")
+		} else {
+			symx.Assert(err != nil, "int->uint16: a value outside the range is an error, not a wrapped value")
 		}
 	case 5:
 		v, err := utils.ConvertFromIndex[uint32](ctx, 0)
 		if x >= 0 && x <= 4294967295 {
 			symx.Assert(err == nil && int(v) == x, "int->uint32 representable exact")
+		} else {
+			symx.Assert(err != nil, "int->uint32: a value outside the range is an error, not a wrapped value")
 		}
 	case 6:
 		v, err := utils.ConvertFromIndex[uint64](ctx, 0)
 		if x >= 0 {
 			symx.Assert(err == nil && v == uint64(x), "int->uint64 representable exact")
+		} else {
+			symx.Assert(err != nil, "int->uint64: a negative value is an error, not a wrapped value")
 		}
 	case 7:
 		v, err := utils.ConvertFromIndex[uint](ctx, 0)
 		if x >= 0 {
 			symx.Assert(err == nil && v == uint(x), "int->uint representable exact")
+		} else {
+			symx.Assert(err != nil, "int->uint: a negative value is an error, not a wrapped value")
 		}
 	case 8:
 		v, err := utils.ConvertFromIndex[float64](ctx, 0)
